@@ -133,7 +133,8 @@ Fixpoint grow (fuel : nat) (key : ckey) (mark : nat) (body : pstate -> R)
       bind_r (body (with_pos st mark)) (fun result st1 =>
         let endmark := pos st1 in
         if negb (truthy result) then (Ok lastresult, with_pos st1 lastmark)
-        else if Nat.leb endmark lastmark then (Ok lastresult, with_pos st1 lastmark)
+        (* the first result counts even if it consumes nothing; after that every round must get further *)
+        else if truthy lastresult && Nat.leb endmark lastmark then (Ok lastresult, with_pos st1 lastmark)
         else grow f key mark body result endmark (cache_set key (result, endmark) st1))
   end.
 
